@@ -52,7 +52,9 @@ def main():
   with ThreadPoolExecutor(j) as ex:
     for name, prop, res in ex.map(one, names):
       caught = [p + ":" + str(v.get("check")) for p, v in res.items() if isinstance(v, dict) and v.get("exit") == 1]
-      print("%-44s %-4s %s" % (name, prop, ", ".join(caught) if caught else "MISSED " + json.dumps(res)[:120]))
+      obs = json.load(open(os.path.join(VERIF, "seeded", name, "meta.json"))).get("obsolete_after_fix")
+      print("%-44s %-4s %s" % (name, prop, ", ".join(caught) if caught else
+                               ("NEUTRALISED by fix %s" % obs["commit"] if obs else "MISSED " + json.dumps(res)[:120])))
       sys.stdout.flush()
   subprocess.run(["git", "-C", REPO, "worktree", "prune"], capture_output=True)
 
